@@ -240,6 +240,7 @@ func TestVerif_C14(t *testing.T) {
 		managerEver := false
 		interesting := false
 		teardownErrs := 0
+		closeDuringDeploy := false // the close signal was accepted while a deploy was running
 
 		take := func(a *c14Arrival) {
 			switch a.kind {
@@ -320,6 +321,9 @@ func TestVerif_C14(t *testing.T) {
 				if managerEver && reserved() {
 					// a manager exists (the service releases the reservation only when the manager is gone)
 					teardownAccepted = true
+					if pendingOp != nil && pendingOp.kind == "deploy" {
+						closeDuringDeploy = true
+					}
 				}
 				settle(30 * time.Millisecond)
 			case 4, 5: // hostname reply
@@ -441,7 +445,9 @@ func TestVerif_C14(t *testing.T) {
 		}
 		if teardownAccepted && !shutdown {
 			// teardown after the last deploy finished (if anything was ever deployed), then everything is released
-			if lastDeployStart >= 0 && !(lastTeardownStart > lastDeployEnd && lastDeployEnd > lastDeployStart) && !deployFailed {
+			// (a deploy that fails with no close pending ends the manager without teardown; but once the close
+			// signal was accepted while a deploy was still running, teardown has to follow whatever that deploy returns)
+			if lastDeployStart >= 0 && !(lastTeardownStart > lastDeployEnd && lastDeployEnd > lastDeployStart) && (!deployFailed || closeDuringDeploy) {
 				fail("c14-no-teardown", "the lease was closed but teardown was not invoked after the last deploy finished")
 			}
 			// keep answering late arrivals (teardown retries after a back-off) while waiting
